@@ -87,7 +87,10 @@ class ModelElement(ABC):
         assert pname is not None
         prop_name = self.topo.graph_model.map_sliver_property_to_graph(pname)
         if prop_name is not None:
-            self.topo.graph_model.unset_node_property(node_id=self.node_id, prop_name=prop_name)
+            # unsetting what is not set is a no-op (the in-memory backend refuses to unset an absent property)
+            _, node_props = self.topo.graph_model.get_node_properties(node_id=self.node_id)
+            if prop_name in node_props:
+                self.topo.graph_model.unset_node_property(node_id=self.node_id, prop_name=prop_name)
 
     def __repr__(self):
         labels, node_props = self.topo.graph_model.get_node_properties(node_id=self.node_id)
